@@ -6,7 +6,7 @@ E1_NOTE = ('Trusted base: the in-repo mock git host (bert_e/git_host/mock.py) st
 
 ENGINES = [
     {'name': 'E1 world', 'path': 'sim/world.py, sim/ops.py',
-     'serves_properties': ['C01', 'C02', 'C08'],
+     'serves_properties': ['C01', 'C02', 'C03', 'C06', 'C08', 'C10', 'C12', 'C15', 'C19', 'C20'],
      'kind_free_text': 'real BertE + workflow + jobs + lib/git + mock host + real git binary; simulated users, CI, webhooks, third parties, crashes, partitions, per-ref push rejection, clock'},
     {'name': 'E2 threads', 'path': 'sim/e2_threads.py',
      'serves_properties': ['C13'],
@@ -35,6 +35,44 @@ META = {
         'text': 'Hundreds of thousands of seeded interleavings of 1-3 request threads (1-2 events each, 1-2 keys) with the worker over the real put_job/process_task/process/Job.__eq__, 0-4 forced pre-emptions per run, every job outcome class incl. exceptions with a failing __str__. Oracle: every accepted request is followed by an evaluation of its key that starts after the request arrived; after every job the worker is alive, the job is recorded done with the exception class as status and the current-job marker is cleared; the queue drains within the step bound.',
         'note': 'Job handlers are stubs (the property is about the dispatcher); queue.Queue is replaced by a same-surface queue whose get() parks with the scheduler; C-level deque/dict operations are atomic under the GIL; bounded pre-emptions (<=4) over source lines of two files.'},
 }
+
+META.update({
+    'C03': {
+        'engine': 'E1 world', 'level': 'exploration', 'design_ref': 'DESIGN.md 5 C03',
+        'technique': 'deterministic simulation: seeded queue-mode histories with a CI actor reporting any state on any (also superseded) commit; every destination movement checked against the report history',
+        'text': 'Queue-mode histories (with and without skip_queue_when_not_needed, octopus and no_octopus) in which CI reports SUCCESSFUL/FAILED/STOPPED/INPROGRESS/NOTSTARTED on source, w/, q/w/ and q/ tips and on stale commits in any order, admins bypass the build check or force-merge. At every movement of a development/stabilization/hotfix ref the new tip must have been reported SUCCESSFUL on that very sha ("ever", so a later red re-run cannot make the oracle stricter than the statement), unless force-merged, bypassed for a merged PR, or no build key.',
+        'note': E1_NOTE + 'The bypass exemption is generous (any admin comment naming bypass_build_status on a PR merged by the job).'},
+    'C06': {
+        'engine': 'E1 world', 'level': 'exploration', 'design_ref': 'DESIGN.md 5 C06',
+        'technique': 'deterministic simulation: seeded histories where integration tips move between CI report and evaluation; gate outcome compared with the host status of the tips as published by the job',
+        'text': 'Histories with CI reports in any order/state on source and w/ tips, tips then moving (author pushes, rebases, destination merges, manual commits on w/), stale greens on superseded tips, bypass by admin comment / per-author setting / command line, empty build key. Oracle: a job ending Queued or merged directly implies every integration tip (source tip + each w/ tip as published by that job) is currently SUCCESSFUL under the build key; BuildFailed implies a FAILED/STOPPED answer and a "Build failed" message on the PR; BuildNotStarted/BuildInProgress implies no failed answer and no build comment.',
+        'note': E1_NOTE + 'Status answers are those of the mock host (no status cache in E1; the cache is covered by C17).'},
+    'C10': {
+        'engine': 'E1 world', 'level': 'exploration', 'design_ref': 'DESIGN.md 5 C10',
+        'technique': 'deterministic simulation, differential: from fork() snapshots of reachable states each possible evaluation is delivered four times to the long-lived instance and to a fresh one',
+        'text': 'Seeded histories with bursts of command comments (help/reset/force_reset/status/build) and silent evaluations; at seeded points every PR event (incl. integration PRs) and commit event on every source/w/q tip is repeated 4x from a snapshot on the long-lived and on a fresh instance: the 4th evaluation must change no ref, PR or comment, both instances must leave identical refs/PRs/comments; after every job no two adjacent comments of a PR are identical robot messages and no command comment is executed twice.',
+        'note': E1_NOTE + '"Twice in a row" is read as two adjacent comments of the PR (weakest reading); command executions are attributed through the reference reading of "comments after the robot\'s last message".'},
+    'C12': {
+        'engine': 'E1 world', 'level': 'exploration', 'design_ref': 'DESIGN.md 5 C12',
+        'technique': 'deterministic simulation: seeded histories adding/removing holds at any position; nothing-created oracle after every job, bounded-liveness (drive to quiescence) after the hold is lifted',
+        'text': 'Fully approved, green PRs combined with wait / after_pull_request (open, declined, merged, unknown, non-numeric ids, several) comments added and deleted anywhere in the history, closed PRs re-delivered, foreign source/destination names. While a hold is in force no w/ or q/w/ ref of that PR appears, no integration PR is created, it is not merged, and foreign PRs get no comment at all; after every hold is lifted and CI is green the PRs that had no other obstacle must end MERGED within the job cap.',
+        'note': E1_NOTE + 'Non-numeric after_pull_request values are treated as unspecified; branch names in the robot namespace (q/..., w/...) are not used as foreign sources.'},
+    'C15': {
+        'engine': 'E1 world', 'level': 'exploration', 'design_ref': 'DESIGN.md 5 C15',
+        'technique': 'deterministic simulation: seeded histories of source rewrites and manual commits on integration branches with known provenance, then reset/force_reset',
+        'text': 'Histories in which sources are amended, rebased, extended, hard-reset, merged with their destination, and manual commits (plain or hand-made merges, by author or peer) are pushed on w/ branches in any order before reset or force_reset. The simulator knows each commit\'s provenance: if a w/ branch of the PR still holds a manual commit, reset must end LossyResetWarning with no ref changed and nothing declined; either command may delete only that PR\'s w/ branches and decline only its integration PRs; the next gated evaluation must have rebuilt the w/ branches.',
+        'note': E1_NOTE + 'A refusal without manual work is an observation, not a violation.'},
+    'C19': {
+        'engine': 'E1 world', 'level': 'exploration', 'design_ref': 'DESIGN.md 5 C19',
+        'technique': 'deterministic simulation: webhook re-entry (child-PR and robot-comment events), duplication and reordering; structural invariant after every job plus differential child/commit/parent event delivery from snapshots',
+        'text': 'Up to 3 PRs on overlapping cascades with integration PRs on/off, every webhook the robot itself provokes put on the simulated network and delivered in seeded order and multiplicity, commit events on source/w/q tips. After every job: w/ branches exist only for targets beyond the first, at most one OPEN robot PR per (w/ branch, target), titled and described after its parent; from snapshots an event on a child PR or on a source/w tip must leave the same state as the parent event; decline cleans exactly the parent\'s branches and PRs, merge removes them.',
+        'note': E1_NOTE + 'The mock host never closes a PR whose source branch vanished, so "no open robot PR without a live parent" is not asserted after merges.'},
+    'C20': {
+        'engine': 'E1 world', 'level': 'exploration', 'design_ref': 'DESIGN.md 5 C20',
+        'technique': 'deterministic simulation: admin jobs (create/delete branch, rebuild/delete/force-merge queues) issued in seeded reachable states with queued PRs; before/after ref+tag diff against a reference cascade model',
+        'text': 'In states reached by seeded histories (queues on/off, hotfix queues, queued PRs) admin jobs are issued with names older/between/newer/existing/archived and branch_from absent/branch/commit. Refusals (JobFailure/NothingToDo/NotMyJob) must leave refs and tags identical; a successful create-branch must leave a well-formed layout (reference model) with the C01 chain, never for an archived version or an older development branch while PRs are queued; delete-branch refuses with queued PRs / live stabilization and leaves the archive tag on the deleted tip; rebuild/delete queues touch only q/*, and rebuild re-submits exactly the queued PRs in entry order (per independent queue).',
+        'note': E1_NOTE + 'A rebuild-queues job that ends in an internal exception while PRs are queued counts as a violation (it re-submits nothing).'},
+})
 
 NOT_APPLICABLE = [
     {'property_id': 'C18', 'reason': 'pure function of a string (branch-name grammar and name round-trip): no schedule, clock, fault, crash point or second party for a simulator to own - DESIGN.md section 5, C18'},
